@@ -127,14 +127,54 @@ def scen_merge_order(ch, params, out):
               lambda: f"similarity table {bits}: samples in order 0..{n - 1} give classes {a}, in order {perm} give {b}", "order_dependent:merge_partition")
 
 
+def scen_merge_order_real(ch, params, out):
+    """registry level with the REAL comparators (small thresholds, so that models over a 4-key universe reach them): three nested
+    models of chosen key sets; the classes after merging must not depend on the order in which the samples introduce them"""
+    from json_to_models.generator import MetadataGenerator
+    from json_to_models.registry import ModelFieldsEquals, ModelFieldsNumberMatch, ModelFieldsPercentMatch, ModelRegistry
+    U = ["k0", "k1", "k2", "k3", "k4"][:params.get("keys", 4)]
+    subsets = [[k for j, k in enumerate(U) if m >> j & 1] for m in range(1, 2 ** len(U))]
+    s0, s1 = ch.choose("key_sets(m0,m1)", [(a, b) for a in subsets for b in subsets], shard=True)
+    s2 = ch.choose("key_set(m2)", subsets)
+    sets = [s0, s1, s2]
+    pol = ch.choose("policy", params.get("policies", ["p70_n2", "p50_n3", "exact_n2"]))
+    perm = ch.choose("sample_order", params.get("orders", [(2, 1, 0), (1, 2, 0)]))
+
+    def comparators():
+        return {"p70_n2": [ModelFieldsPercentMatch(.7), ModelFieldsNumberMatch(2)], "p50_n3": [ModelFieldsPercentMatch(.5), ModelFieldsNumberMatch(3)],
+                "exact_n2": [ModelFieldsEquals(), ModelFieldsNumberMatch(2)], "default": []}[pol]
+
+    def run(order):
+        samples = [{"rootmarker": 1, f"f{i}": {k: 1 for k in sets[i]}} for i in order]
+        gen = MetadataGenerator()
+        reg = ModelRegistry(*comparators())
+        reg.process_meta_data(gen.generate(*samples), model_name="Root")
+        reg.merge_models(gen)
+        return sorted(tuple(sorted(m.type)) for m in reg.models if "rootmarker" not in m.type)
+    out.info = {"sets": sets, "policy": pol, "perm": list(perm)}
+    try:
+        a = run((0, 1, 2))
+        b = run(perm)
+    except Exception as e:
+        out.fail("merge_raises", f"{type(e).__name__}: {e} sets={sets} policy={pol} perm={perm}", "merge_raises")
+        return
+    out.check(a == b, "order_or_repetition_dependent",
+              lambda: f"policy {pol}, nested key sets {sets}: samples in order 0,1,2 give classes {a}, in order {perm} give {b}", "order_dependent:merge_partition_real")
+
+
 def parts(tier):
     if tier == "quick":
         return [CH("order", "vflib.props.c07:scen_order", {"kinds": "KINDS_ORDER", "samples": 3},
                    shards=16, timeout=170, path_timeout=60, mode="CH-P+CH-E"),
                 CH("merge_order", "vflib.props.c07:scen_merge_order", {"models": 4}, shards=16, timeout=170, path_timeout=30),
+                CH("merge_order_real_comparators", "vflib.props.c07:scen_merge_order_real", {"keys": 4}, shards=16, timeout=170, path_timeout=30),
                 CH("order_objects", "vflib.props.c07:scen_order", {"kinds": "KINDS_ORDER2", "samples": 3, "dkr": [None, "^\\d+$"], "symbolic_leaves": False},
                    shards=16, timeout=170, path_timeout=60, mode="CH-E")]
-    return [CH("merge_order", "vflib.props.c07:scen_merge_order", {"models": 5}, shards=16, timeout=400, path_timeout=30),CH("order", "vflib.props.c07:scen_order", {"kinds": "KINDS_SMALL", "samples": 3, "merge": ["default", "p50n2"], "all_traced": True},
+    return [CH("merge_order", "vflib.props.c07:scen_merge_order", {"models": 5}, shards=16, timeout=400, path_timeout=30),
+            CH("merge_order_real_comparators", "vflib.props.c07:scen_merge_order_real", {"keys": 5, "policies": ["p70_n2", "p50_n3", "exact_n2", "default"],
+                                                                                          "orders": [(2, 1, 0), (1, 2, 0), (1, 0, 2), (0, 2, 1), (2, 0, 1)]},
+               shards=16, timeout=400, path_timeout=30),
+            CH("order", "vflib.props.c07:scen_order", {"kinds": "KINDS_SMALL", "samples": 3, "merge": ["default", "p50n2"], "all_traced": True},
                shards=16, timeout=400, path_timeout=90, mode="CH-P+CH-E"),
             CH("order_nested", "vflib.props.c07:scen_order", {"kinds": "KINDS_NEST", "samples": 3, "merge": ["default", "p50n2"],
                                                               "symbolic_leaves": False},
